@@ -25,20 +25,14 @@ CHECKS = {
              "the compiler does (checked by C08/C16); a marker before the first component is not expressible in the crate (F16-2).",
         design="6 (C03)"),
     "C04": dict(
-        technique="Coq model with every partial Rust operation an explicit Panic outcome (theorems in Props/C04.v, C10 no-panic theorems) + differential correspondence on random and mutated inputs under memory/time limits",
-        text="Reader halves of the model (UPER L0-L2, DER primitives, protobuf reader) with explicit Panic outcomes for indexing, "
-             "arithmetic, allocation and unwrap; proved no-panic statements for the PER primitive readers (Props/C10.v), DER model has no "
-             "Panic constructor reachable; tied to /repo by differential execution on random bytes and mutated valid encodings for 80 zoo "
-             "types (UPER), the DER primitives and the protobuf zoo, the child running under RLIMIT_AS and a time limit.",
-        note="Partial: wall-clock hang and real allocation are bounded as requested work in the model and observed only by the tie; "
-             "known findings F04-1..3. Trusted: Coq kernel, extraction + driver, harness with catch_unwind, process supervision.",
+        technique='Coq proof (reader totality: no Panic outcome, no success beyond the declared length, for every well-formed type outside two listed classes) + differential correspondence on random and mutated inputs under memory/time limits',
+        text='C04_uper_total: for every mode, well-formed type outside Known_C04 and source in the invariant, read_ty never reaches a Panic outcome (indexing, unchecked arithmetic per profile, allocation, unwrap, debug assertion are explicit Panic outcomes in the model) and a successful read ends within the declared length; C04_remaining_callable, C04_pos_le_len_preserved for every primitive, C04_entry_total, C04_der_total (DER readers), PER primitive no-panic theorems, refutation witnesses for the listed classes. Tied to /repo by differential execution on random bytes and mutated valid encodings for 80 zoo types (UPER), the DER primitives and the protobuf zoo, the child running under RLIMIT_AS and a time limit.',
+        note="Partial only in that wall-clock hang and real allocation are bounded as requested work in the model and observed by the tie, and that the protobuf reader's totality is tie-only; known findings F04-1..3. Trusted: Coq kernel, extraction + driver, harness with catch_unwind, process supervision.",
         design="6 (C04)"),
     "C05": dict(
-        technique="Coq model of the reader over schema pairs + differential correspondence (write under A, read under B, sentinel after the message)",
-        text="The L2 reader model includes the transmitted-count presence range and the skipping of unknown additions; schema pairs "
-             "(V1, V2 = V1 + k additions, CHOICE/ENUMERATED extension pairs) are run in both directions through the real writer/reader "
-             "with a trailing sentinel and judged by an oracle computed from the pair; model and crate compared line by line.",
-        note="Trusted: Coq kernel, extraction + driver, harness, Python oracle. Two genuine defects found here were repaired (fix: commits 546b054, 543a356).",
+        technique='Coq proof (C05_forward / C05_backward / sentinel corollaries over an `extends` relation on types) + differential correspondence (write under A, read under B, sentinel after the message)',
+        text='C05_forward, C05_backward, C05_sequence_compat, C05_sentinel_forward/backward: for top-level SEQUENCE/SET, CHOICE and ENUMERATED pairs related by appended extension additions/alternatives/items, old data reads under the new type with the additions absent and new data reads under the old type with unknown additions skipped, the reader ending exactly at the end of the message (arbitrary tail), unknown CHOICE/ENUMERATED indices giving InvalidChoiceIndex; schema pairs are also run in both directions through the real writer/reader with a trailing sentinel and judged by an oracle computed from the pair.',
+        note='Closure of `extends` under enclosing contexts is not proved (top level only; the tie nests pairs in no outer type either); values inside Known_C01 (>= 16K classes) excluded. Two genuine defects found here were repaired (fix: commits 546b054, 543a356). Trusted: Coq kernel, extraction + driver, harness, Python oracle.',
         design="6 (C05)"),
     "C06": dict(
         technique="Coq proofs of rejection for every PER primitive (Props/C10.v *_reject) + L2 model + differential correspondence with a sat() oracle",
@@ -99,10 +93,9 @@ CHECKS = {
         note="Partial: 'valid proto3' relative to a transcribed grammar subset; protoc (3.21.12, system tool) only confronts generated samples; known findings F18-1..4.",
         design="6 (C18)"),
     "C19": dict(
-        technique="Erasure by construction (model without diagnostics state) + both feature builds tied to the one model and to each other",
-        text="The reader model carries no diagnostics; both builds (default, descriptive-deserialize-errors; dev and release) are compared with the model "
-             "and with each other on the C04 UPER input set plus round trips; a syntactic audit lists every cfg-gated block of rw/uper.rs.",
-        note="The theorem is about the model; what ties both real builds to it is the correspondence run twice (DESIGN section 6 C19).",
+        technique='Coq proof of erasure (a second model of the reader as built with the feature, every cfg-gated statement a log push; C19_erasure by induction on types) + both feature builds tied to the models and to each other',
+        text='Uper/ReaderD.v models the reader with descriptive-deserialize-errors (24 log codes, pushes at the program points of the 44 cfg-gated items); C19_erasure / C19_erasure_history: same Ok value, error kind, panic class and cursor as the plain model for every type and reader state. Both builds (dev and release) are compared with the model and with each other on the C04 UPER input set plus round trips; the log model itself is tied to the feature build through op 1204 (exact sequence of ScopeDescription constructors on failures).',
+        note='The theorem is about the two models; what ties both real builds to them is the correspondence (ops 1201/1202 on all four builds, op 1204 on the feature builds). gen/cfg_audit.py lists the cfg-gated items as a sentinel.',
         design="6 (C19)"),
     "C01": dict(
         technique="Coq model of the UPER writer/reader + round-trip oracle over differential correspondence (theorems in Props/C01.v)",
